@@ -13,20 +13,19 @@ namespace OdxVerif.Codec
 open OdxVerif.Bits OdxVerif.OdxM
 
 /-- one step of the key bookkeeping on the decoding side -/
-theorem KItem.refs_step (W : String → Option Int) (it : KItem) (its : List KItem) (hok : it.ok) (seen : List String)
-    (h : KItems.refsOk W seen (it :: its)) (d : DecState) (hcb : d.cursorBit = 0) (hfit : it.toComp.pair.fits d)
+theorem KItem.refs_step (W : String → Option Int) (it : KItem) (its : List KItem) (hok : it.ok) (seen known : List String)
+    (h : KItems.refsOk W seen known (it :: its)) (d : DecState) (hcb : d.cursorBit = 0) (hfit : it.toComp.pair.fits d)
     (hpre : it.toComp.decPre d) (hseen : ∀ n ∈ seen, lookup n d.lengthKeys = W n) :
-    ∃ seen', KItems.refsOk W seen' its ∧ (∀ n ∈ seen', lookup n (it.toComp.pair.dec d).2.lengthKeys = W n) ∧
-      (∀ u, it = KItem.user u → lookup u.key d.lengthKeys = some u.bits) := by
+    ∃ seen' known', KItems.refsOk W seen' known' its ∧ (∀ n ∈ seen', lookup n (it.toComp.pair.dec d).2.lengthKeys = W n) := by
   cases it with
   | comp g =>
-    refine ⟨seen, h, ?_, fun _ e => by cases e⟩
+    refine ⟨seen, known, h, ?_⟩
     intro n hn
     have : (g.pair.dec d).2.lengthKeys = d.lengthKeys := hok.2.2.dec_keys d hcb hfit hpre
     show lookup n (g.pair.dec d).2.lengthKeys = W n
     rw [this]; exact hseen n hn
   | key o v b =>
-    refine ⟨o.name :: seen, h.2, ?_, fun _ e => by cases e⟩
+    refine ⟨o.name :: seen, _, h.2, ?_⟩
     intro n hn
     show lookup n (insertKV o.name v d.lengthKeys) = W n
     by_cases hne : n = o.name
@@ -35,16 +34,27 @@ theorem KItem.refs_step (W : String → Option Int) (it : KItem) (its : List KIt
       cases hn with
       | head => exact absurd rfl hne
       | tail _ hm => exact hseen n hm
+  | user u => exact ⟨seen, _, h.2.2, fun n hn => hseen n hn⟩
+  | ouser o v key => exact ⟨seen, _, h.2.2.2, fun n hn => hseen n hn⟩
+
+/-- what the dictionary says about the key of a user when the decoder reaches it -/
+theorem KItem.ref_known (W : String → Option Int) (it : KItem) (its : List KItem) (seen known : List String)
+    (h : KItems.refsOk W seen known (it :: its)) (d : DecState) (hseen : ∀ n ∈ seen, lookup n d.lengthKeys = W n)
+    (k : String) (b : Int) (hr : it.ref = some (k, b)) : lookup k d.lengthKeys = some b := by
+  cases it with
+  | comp g => cases hr
+  | key o v b' => cases hr
   | user u =>
-    refine ⟨seen, h.2.2, fun n hn => hseen n hn, ?_⟩
-    intro u' e
-    cases e
-    rw [hseen _ h.1, h.2.1]
+    simp only [KItem.ref, Option.some.injEq, Prod.mk.injEq] at hr
+    rw [← hr.1, ← hr.2, hseen _ h.1, h.2.1]
+  | ouser o v key =>
+    simp only [KItem.ref, Option.some.injEq, Prod.mk.injEq] at hr
+    rw [← hr.1, ← hr.2, hseen _ h.1, h.2.1]
 
 /-- **the decoder preconditions from the two passes** -/
 theorem KItems.decPre_intro (W : String → Option Int) : (its : List KItem) → (∀ it ∈ its, it.ok) →
-    Comps.eopLast (KItems.comps its) → ∀ (K : EncState → EncState), Framing K → ∀ (seen : List String),
-    KItems.refsOk W seen its → ∀ (s : EncState) (d : DecState), AllBytes s.msg →
+    Comps.eopLast (KItems.comps its) → ∀ (K : EncState → EncState), Framing K → ∀ (seen known : List String),
+    KItems.refsOk W seen known its → ∀ (s : EncState) (d : DecState), AllBytes s.msg →
     (K ((Comps.pair (KItems.comps its)).enc s)).warn = s.warn → d.origin = s.origin → d.cursorByte = s.cursorByte →
     d.cursorBit = 0 → AllBytes d.msg → (K ((Comps.pair (KItems.comps its)).enc s)).msg.length ≤ d.msg.length →
     (∀ a, getBit (K ((Comps.pair (KItems.comps its)).enc s)).used a = true →
@@ -52,8 +62,8 @@ theorem KItems.decPre_intro (W : String → Option Int) : (its : List KItem) →
     (∀ c ∈ KItems.cells its s, c.holds d.msg) → (∀ n ∈ seen, lookup n d.lengthKeys = W n) →
     (Comps.anyEop (KItems.comps its) = true → ((Comps.pair (KItems.comps its)).dec d).2.cursorByte = d.msg.length) →
     Comps.decPre (KItems.comps its) d
-  | [], _, _, _, _, _, _, _, _, _, _, _, _, _, _, _, _, _, _, _ => trivial
-  | it :: its, hok, hlast, K, hK, seen, hrefs, s, d, hall, hw, horig, hcur, hcb, hdall, hlen, hagree, hcells, hseen, heop => by
+  | [], _, _, _, _, _, _, _, _, _, _, _, _, _, _, _, _, _, _, _, _ => trivial
+  | it :: its, hok, hlast, K, hK, seen, known, hrefs, s, d, hall, hw, horig, hcur, hcb, hdall, hlen, hagree, hcells, hseen, heop => by
     have hokit := hok it (List.mem_cons_self ..)
     have hokr : ∀ x ∈ its, x.ok := fun x hx => hok x (List.mem_cons_of_mem _ hx)
     have hgood := it.good hokit
@@ -82,10 +92,7 @@ theorem KItems.decPre_intro (W : String → Option Int) : (its : List KItem) →
     obtain ⟨hv, hcur1, horg1, hmsg1, hfit1⟩ := hgood.rt s d hall hwp horig hcur hdall hlenP hagreeP
     have heop' : Comps.anyEop (it.toComp :: KItems.comps its) = true →
         ((Comps.pair (KItems.comps its)).dec (it.toComp.pair.dec d).2).2.cursorByte = d.msg.length := heop
-    have huser : ∀ u, it = KItem.user u → lookup u.key d.lengthKeys = some u.bits := by
-      intro u e
-      subst e
-      rw [hseen _ hrefs.1, hrefs.2.1]
+    have href := it.ref_known W its seen known hrefs d hseen
     have hhead : it.toComp.decPre d := by
       -- the head
       cases it with
@@ -111,11 +118,12 @@ theorem KItems.decPre_intro (W : String → Option Int) : (its : List KItem) →
         have := (hcells (o, v, o.pos s.origin s.cursorByte) (by simp [KItems.cells, KItem.cell])).2
         simp only [decStep, horig, hcur]
         exact this
-      | user u => exact huser u rfl
-    obtain ⟨seen', hrefs', hseen', _⟩ := it.refs_step W its hokit seen hrefs d hcb hfit1 hhead hseen
+      | user u => exact href _ _ rfl
+      | ouser o v key => exact href _ _ rfl
+    obtain ⟨seen', known', hrefs', hseen'⟩ := it.refs_step W its hokit seen known hrefs d hcb hfit1 hhead hseen
     refine ⟨hhead, ?_⟩
     · -- the rest
-      apply KItems.decPre_intro W its hokr hlastr K hK seen' hrefs' (it.toComp.pair.enc s) (it.toComp.pair.dec d).2
+      apply KItems.decPre_intro W its hokr hlastr K hK seen' known' hrefs' (it.toComp.pair.enc s) (it.toComp.pair.dec d).2
         (hgood.allBytes s hall) hwK (by rw [horg1, horig, hgood.origin]) hcur1
         ((it.decOk hokit).dec_cursorBit d hcb) (by rw [hmsg1]; exact hdall)
         (by rw [hmsg1]; exact hlen') (by rw [hmsg1]; exact hagree')
@@ -146,7 +154,7 @@ theorem KItems.need_ge (its : List KItem) : its.length + 1 ≤ Comps.need (KItem
 /-- `Request.encode` on a list of items = the two pure passes from the empty message -/
 theorem encodeMessage_kitems (W : String → Option Int) (its : List KItem) (hneed : Comps.need (KItems.comps its) + 2 ≤ modelFuel)
     (hok : ∀ it ∈ its, it.ok) (hlast : Comps.eopLast (KItems.comps its)) (hn : Comps.namesOk (KItems.comps its))
-    (hrefs : KItems.refsOk W [] its) (hcov : KItems.covered its) (trig : Option Bytes) :
+    (hrefs : KItems.refsOk W [] [] its) (hcov : KItems.covered its) (trig : Option Bytes) :
     ∃ s0 : EncState, s0.msg = [] ∧ s0.used = [] ∧ s0.warn = 0 ∧ s0.cursorByte = 0 ∧ s0.origin = 0 ∧
       encodeMessage none (Comps.toParams (KItems.comps its)) (.dict (Comps.values (KItems.comps its))) trig true =
         .ok ((enc2 (KItems.cells its s0) ((Comps.pair (KItems.comps its)).enc s0)).msg,
@@ -155,8 +163,9 @@ theorem encodeMessage_kitems (W : String → Option Int) (its : List KItem) (hne
   refine ⟨s0, rfl, rfl, rfl, rfl, rfl, ?_⟩
   obtain ⟨f, hf⟩ : ∃ f, modelFuel = f + 1 + 1 := ⟨modelFuel - 2, by unfold modelFuel; omega⟩
   have hf' : Comps.need (KItems.comps its) ≤ f := by omega
-  obtain ⟨s1, hrun1, hp1⟩ := KItems.encode1 W its hok hlast hn [] hrefs (Comps.values (KItems.comps its))
+  obtain ⟨s1, hrun1, hp1⟩ := KItems.encode1 W its hok hlast hn [] [] hrefs (Comps.values (KItems.comps its))
     (fun g hg => KItems.lookupV_values its hok hn g hg) f hf' true (fun _ => rfl) s0 (fun n x h => by cases h)
+    (fun n h => by cases h)
   -- every key has its value and its position
   have hkeys : ∀ o v b, KItem.key o v b ∈ its →
       lookup o.name ({ s1 with isEndOfPdu := false } : EncState).lengthKeys = some v ∧
@@ -166,13 +175,13 @@ theorem encodeMessage_kitems (W : String → Option Int) (its : List KItem) (hne
     · cases b with
       | true => exact hp1.supplied o v hm
       | false =>
-        obtain ⟨u, hu, hkey⟩ := hcov o v hm
-        have h1 := hp1.used u hu
-        have h2 := KItems.refsOk_key W [] its hrefs o v false hm
-        have h3 := KItems.refsOk_user W [] its hrefs u hu
-        rw [hkey, h2] at h3
+        obtain ⟨it, hit, b, hb⟩ := hcov o v hm
+        have h1 := hp1.used it hit _ _ hb
+        have h2 := KItems.refsOk_key W [] [] its hrefs o v false hm
+        have h3 := KItems.refsOk_ref W [] [] its hrefs it hit _ _ hb
+        rw [h2] at h3
         show lookup o.name s1.lengthKeys = some v
-        rw [← hkey, h1, Option.some.inj h3]
+        rw [h1, Option.some.inj h3]
     · obtain ⟨pos, hpos⟩ := KItems.cells_of_key its s0 o v b hm
       show (lookup o.name s1.keyPos).isSome = true
       rw [hp1.pos _ hpos]; rfl
@@ -217,7 +226,7 @@ theorem decodeMessage_kitems (its : List KItem) (hneed : Comps.need (KItems.comp
     users' values and, for the keys, the bit length or nothing; the decoded dictionary holds every key with the bit length. -/
 theorem kitems_roundtrip_msg (W : String → Option Int) (its : List KItem) (hneed : Comps.need (KItems.comps its) + 2 ≤ modelFuel)
     (hok : ∀ it ∈ its, it.ok) (hlast : Comps.eopLast (KItems.comps its)) (hn : Comps.namesOk (KItems.comps its))
-    (hrefs : KItems.refsOk W [] its) (hcov : KItems.covered its) (trig : Option Bytes) (pdu : Bytes)
+    (hrefs : KItems.refsOk W [] [] its) (hcov : KItems.covered its) (trig : Option Bytes) (pdu : Bytes)
     (hend : Comps.anyEop (KItems.comps its) = true → ((Comps.pair (KItems.comps its)).enc {}).cursorByte = pdu.length)
     (henc : encodeMessage none (Comps.toParams (KItems.comps its)) (.dict (Comps.values (KItems.comps its))) trig true
       = .ok (pdu, 0)) :
@@ -254,7 +263,7 @@ theorem kitems_roundtrip_msg (W : String → Option Int) (its : List KItem) (hne
     (by rw [hpdu]; exact Nat.le_refl _) hagreeF
   have hcore0 : SameCore s0 {} := ⟨hm, hu, hw0, hc, ho⟩
   have hpre : Comps.decPre (KItems.comps its) { msg := pdu } := by
-    apply KItems.decPre_intro W its hok hlast (enc2 (KItems.cells its s0)) hF [] hrefs s0 { msg := pdu } hall hwF0
+    apply KItems.decPre_intro W its hok hlast (enc2 (KItems.cells its s0)) hF [] [] hrefs s0 { msg := pdu } hall hwF0
       (by simp [ho]) (by simp [hc]) rfl hdall (by rw [hpdu]; exact Nat.le_refl _) hagreeF hcells (fun n h => by cases h)
     intro hany
     rw [hcur, (hg.core _ _ hcore0).2.2.2.1]
